@@ -1,6 +1,6 @@
 #!/bin/bash
 # commit_fix.sh <fix dir under /tmp/fixes/r10> <name under /verif/fixes> <subject line (without "fix: ")> : body is read from stdin
-d=/tmp/fixes/r10/$1; name=$2; subject=$3
+d=${FIXROOT:-/tmp/fixes/r10}/$1; name=$2; subject=$3
 body=$(cat)
 cd /repo || exit 2
 [ -z "$(git status --porcelain)" ] || { echo "/repo not clean"; exit 2; }
